@@ -263,6 +263,10 @@ def _run(self):
     _emit(self)
     if WORLD.on_run is not None:
         WORLD.on_run(self)
+    if type(self).__name__ == 'TP':
+        with self.guard:
+            if self.helper() != self.derived:
+                raise RuntimeError('post_init-derived helper is wrong')
     vals = []
     seen_keys = set()
     for dep in all_dep_instances(self):      # every instance is read, the value of each distinct dependency is used once
@@ -315,6 +319,10 @@ def _filter_faulty(self, context):
 
 def _post_init(self):
     object.__setattr__(self, 'derived', ('derived', self.label))
+    # the documented use of post_init: helpers derived from the parameters, which need not be
+    # picklable themselves (a closure, a lock)
+    object.__setattr__(self, 'helper', lambda: ('derived', self.label))
+    object.__setattr__(self, 'guard', threading.Lock())
 
 
 class JsonCache(BaseCache):
